@@ -14,6 +14,7 @@ import WellenModel.Model.VcdHeaderDump
 import WellenModel.Model.Ghw
 import WellenModel.Model.GhwSpec
 import WellenModel.Model.FstFile
+import WellenModel.Proofs.Mt
 /-
 `wmdriver`: reads one request per line on stdin, answers `<model reply>\t<spec reply>` per line.
 Imports only the import-free `Model` modules (the same definitions the theorems are about).
@@ -502,6 +503,30 @@ def handleVcdMt (opts vars rmap body : String) : String × String :=
     | _ => ("bad-request", "-")
   | _, _, _ => ("bad-request", "-")
 
+deriving instance DecidableEq for Wellen.Spec.Op
+
+/-- evidence for the one assumption of `C03_mt_eq_st_given_handover`: is the body hand-over safe, and do the operations of
+its chunks, one after the other, equal the operations of the whole body (`HandoverLexical`, decided for this input) -/
+def handleHandoverLex (opts vars rmap body : String) : String × String :=
+  open Wellen.VcdBody in
+  match parseVars vars, parseRealMap rmap, hexBytes? body with
+  | some vs, some rm, some b =>
+    match parseMode opts b.length with
+    | some (.multi t c) =>
+      let d := mkDecls vs
+      let safe := handoverSafe b t c
+      let lex : Option Bool :=
+        match (determineChunks b.length t c).mapM (chunkOps d rm b), tokenSpec b with
+        | some segs, .ok evs =>
+          match opsOfEvs d rm (implicitZero evs) with
+          | some ops => some (decide (segs.flatten = ops))
+          | none => none
+        | _, _ => none
+      let lexTxt := match lex with | some true => "1" | some false => "0" | none => "na"
+      (s!"safe={if safe then 1 else 0};lex={lexTxt}", "-")
+    | _ => ("bad-request", "-")
+  | _, _, _ => ("bad-request", "-")
+
 open Wellen.VcdBody in
 def handleVcd (opts vars rmap body : String) : String × String :=
   match parseVars vars, parseRealMap rmap, hexBytes? body with
@@ -558,6 +583,7 @@ def handle (line : String) : String × String :=
   | ["hier", ops] => Wellen.Hier.handle ops
   | ["vcd", opts, vars, rmap, body] => handleVcd opts vars rmap body
   | ["vcdmt", opts, vars, rmap, body] => handleVcdMt opts vars rmap body
+  | ["handoverlex", opts, vars, rmap, body] => handleHandoverLex opts vars rmap body
   | ["entryvcd", vars, rmap, body] => handleEntryVcd vars rmap body
   | ["entryfile", _] => ("same:ok", "same:ok")
   | ["pairfile", _, _] => ("same", "same")
